@@ -159,10 +159,12 @@ def Group.addParam (g : Group) (p : Param) : Res Group :=
 def getParam (gs : List Group) (g p : Bytes) : Res Param :=
   (byName Group.name gs g).bind fun grp => byName Param.name grp.params p
 
+/-- `group(g).parameter(p).valuesAsInt().at(0)` -/
 def int0 (gs : List Group) (g p : Bytes) : Res Int :=
-  (getParam gs g p).bind fun q => q.asInt.bind fun v => rawIdx v 0
+  (getParam gs g p).bind fun q => q.asInt.bind fun v => atIdx v 0
+/-- `group(g).parameter(p).valuesAsFloat().at(0)` -/
 def float0 (gs : List Group) (g p : Bytes) : Res UInt32 :=
-  (getParam gs g p).bind fun q => q.asFloat.bind fun v => rawIdx v 0
+  (getParam gs g p).bind fun q => q.asFloat.bind fun v => atIdx v 0
 def strsOf (gs : List Group) (g p : Bytes) : Res (List Bytes) :=
   (getParam gs g p).bind fun q => q.asString
 
